@@ -1,5 +1,6 @@
 // Helpers shared by scenario files.
 #pragma once
+#include <memory>
 #include "../kernel/core.h"
 #include "../seams/env.h"
 #include <exception>
@@ -92,6 +93,20 @@ inline void swarmEnv(Plan& p, Rng& r, bool readFaults, bool writeFaults, bool bi
 	p.setenv("short_write", (writeFaults && r.chance(1, 2)) ? SR[lo + r.below(6 - lo)] : 0);
 	p.setenv("eintr", ((readFaults || writeFaults) && r.chance(1, 3)) ? r.range(2, 5) : 0);
 	p.setenv("readdir", r.chance(1, 2) ? r.next() | 1 : 0);
+}
+
+// Value semantics of an archive object: at a seeded point of a history the object in use is replaced by a copy of itself (the
+// original is destroyed), or by an object moved out of such a copy. Every later call must behave as before.
+template <class A> void maybeCloneArchive(const Plan& plan, RunCtx& ctx, std::unique_ptr<A>& ar, size_t opIndex, const char* clause) {
+	if (!ar || mix64(plan.seed, 0xC10E) % 8 != opIndex % 8 || mix64(plan.seed, 3) % 3 == 0) return;
+	std::string what;
+	Out o = callLib(plan, [&] {
+		auto c = std::make_unique<A>(*ar);
+		if (mix64(plan.seed, 5) & 1) { auto d = std::make_unique<A>(std::move(*c)); c = std::move(d); }
+		ar = std::move(c);
+	}, &what);
+	if (o != OkOut) ctx.fail(clause, "copying the archive object failed: " + what);
+	ctx.count("probe.archive_object_cloned");
 }
 
 // Worlds holding megabytes: byte-sized transfers would only multiply intercepted calls (and run into the per-call I/O budget,
